@@ -8,7 +8,11 @@ import Driver.Woehler
 * `mn_damage <curve> S_1 n_1 … S_m n_m` → per-class damage values, then the damage sum (m+1 doubles)
 * `mn_miner  <curve> S_1 n_1 … S_m n_m` → `degenerate` when no occupied class carries load, else
   `V A_ele A_hai NG_ele NG_hai Dm_ele Dm_hai flf(total) ND_gassner D_ele(applied NG_ele) D_hai(applied NG_hai)
-   N_gassnercurve(maxOcc) D_orig D_hai D_ele`
+   N_gassnercurve(maxOcc) D_orig D_hai D_ele V_fkm`
+* `mn_seq <e|h|f> <curve> <call> …` → a sequence of calls on ONE accessor object (`Miner.run`, state threaded):
+  the answers in call order (`n/a` = no such method), `|`, the object's class and curve after the last call.
+  Calls: `lm k S_1 n_1 … S_k n_k` (lifetime_multiple), `gc k …` (gassner_cycles), `eds k …` (effective_damage_sum),
+  `gnd k …` (gassner(…).ND), `flf N` (finite_life_factor), `dmg <own|o|e|h> k …` (damage(…).sum() of the variant)
 * `mn_eds A` → effective damage sum;  `mn_flf k1 ND N` → finite life factor
 -/
 namespace PylifeVerif.Driver
@@ -26,6 +30,59 @@ def optF : Option Float → Float
   | none => 1.0 / 0.0
 
 def ppf : Float → Float := WC.NormalQ.ppf
+
+def takeColl (k : String) (toks : List String) : Option (Coll Float × List String) := do
+  let k ← k.toNat?
+  if toks.length < 2 * k then none else
+  let l ← pairs (← parseFloats (toks.take (2 * k)))
+  some (l, toks.drop (2 * k))
+
+def variantOf : String → Option Variant
+  | "own" => some .own
+  | "o" => some .original
+  | "e" => some .elementary
+  | "h" => some .haibach
+  | _ => none
+
+/-- the calls of a `mn_seq` line (fuel = number of tokens) -/
+def parseOps : Nat → List String → Option (List (Op Float))
+  | _, [] => some []
+  | 0, _ => none
+  | fuel + 1, "flf" :: n :: rest => do
+    let n ← parseFloat? n
+    let r ← parseOps fuel rest
+    some (Op.finiteLifeFactor n :: r)
+  | fuel + 1, "dmg" :: v :: k :: rest => do
+    let v ← variantOf v
+    let (l, rest) ← takeColl k rest
+    let r ← parseOps fuel rest
+    some (Op.damageSum v l :: r)
+  | fuel + 1, name :: k :: rest => do
+    let (l, rest) ← takeColl k rest
+    let op ← match name with
+      | "lm" => some (Op.lifetimeMultiple l)
+      | "gc" => some (Op.gassnerCycles l)
+      | "eds" => some (Op.effectiveDamageSum l)
+      | "gnd" => some (Op.gassnerND l)
+      | _ => none
+    let r ← parseOps fuel rest
+    some (op :: r)
+  | _, _ => none
+
+def kindOf : String → Option Kind
+  | "e" => some .elementary
+  | "h" => some .haibach
+  | "f" => some .fatigue
+  | _ => none
+
+def kindName : Kind → String
+  | .elementary => "e"
+  | .haibach => "h"
+  | .fatigue => "f"
+
+def showAnswer : Option Float → String
+  | some x => floatHex x
+  | none => "n/a"
 
 end MN
 open MN
@@ -50,7 +107,13 @@ def handleMiner : List String → Option String
       damageSumW ppf (Woehler.minerHaibach w) (applyFor NGh l),
       optF (cycles (at50 ppf g) (maxOcc l)),
       damageSumW ppf (Woehler.minerOriginal w) l, damageSumW ppf (Woehler.minerHaibach w) l,
-      damageSumW ppf (Woehler.minerElementary w) l])
+      damageSumW ppf (Woehler.minerElementary w) l, solidityFkm l w.k1])
+  | "mn_seq" :: kind :: rest => do
+    let kind ← kindOf kind
+    let w ← WC.curveOf (rest.take 7)
+    let ops ← parseOps rest.length (rest.drop 7)
+    let r := run ppf { kind := kind, curve := w } ops
+    some (" ".intercalate (r.2.map showAnswer ++ ["|", kindName r.1.kind, WC.showCurve r.1.curve]))
   | ["mn_eds", a] => do
     let a ← parseFloat? a
     some (floatHex (effectiveDamageSum a))
